@@ -108,14 +108,17 @@ static std::string cjson(const CaseDesc& c) { return J().str("statement", std::s
 static void run_case(const CaseDesc& c) {
   int d = c.d, n = d * d, dother = (d % 5) + 2; if (dother == d) dother = (d == 2) ? 3 : 2;
   const ref::Basis& B = ref::basis(d);
-  Env env; env.s = -1.75; env.t = 0.6;
+  // operand value sets: 0,1 = dense probes; 2 = special values (scalar 0, time 0, operand a = 0): shortcuts taken for "nothing to do"
+  // must still write every component of the target
+  Env env; env.s = (c.probeset == 2) ? 0.0 : ((c.probeset == 3) ? -0.0 : -1.75); env.t = (c.probeset == 2) ? 0.0 : 0.6;
   bool unary = op_unary(c.op);
   // operand values
-  std::vector<double> av = probe(d, c.probeset), bv = probe(d, (c.probeset + 1) % 3), stale = scaled(probe(d, 2), 0.5);
+  std::vector<double> av = probe(d, c.probeset % 3), bv = probe(d, (c.probeset + 1) % 3), stale = scaled(probe(d, 2), 0.5);
+  if (c.probeset == 3) av.assign(n, 0.0);
   bool b_is_operator = (c.op == EVOL);
   if (b_is_operator) { std::vector<double> e(d); for (int j = 0; j < d; j++) e[j] = 0.7 * j - 0.2 * j * j + 0.1 * c.probeset; bv = B.proj(ref::diag(e)); }
   std::vector<double> evb(d * (d - 1) + 2, 0.0);
-  { std::vector<double> e(d); for (int j = 0; j < d; j++) e[j] = 0.5 * j + 0.13 * j * j; SU_vector h = mkvec(d, B.proj(ref::diag(e))); h.PrepareEvolve(evb.data(), 0.8); }
+  { std::vector<double> e(d); for (int j = 0; j < d; j++) e[j] = 0.5 * j + 0.13 * j * j; SU_vector h = mkvec(d, B.proj(ref::diag(e))); h.PrepareEvolve(evb.data(), c.probeset == 2 ? 0.0 : 0.8); }
   env.evbuf = evb.data();
   // aliasing decides which objects exist
   bool v_is_a = c.alias == P_V_IS_A || c.alias == P_ALL_ONE, v_is_b = c.alias == P_V_IS_B || c.alias == P_ALL_ONE, a_is_b = c.alias == P_A_IS_B || c.alias == P_ALL_ONE;
@@ -219,7 +222,7 @@ int main(int argc, char** argv) {
   CALLP(8) CALLP(9) CALLP(10) CALLP(11) CALLP(12) CALLP(13) CALLP(14) CALLP(15)
 #endif
   bool th = ar.thorough();
-  std::vector<int> dims = th ? std::vector<int>{2, 3, 4, 5, 6} : std::vector<int>{2, 3, 6};
+  std::vector<int> dims = {2, 3, 4, 5, 6};   // every dimension has its own generated kernels
   std::vector<unsigned> flagsets = th ? std::vector<unsigned>{0, 1, 2, 3, 4, 5, 6, 7} : std::vector<unsigned>{0, 7, 1, 2, 4};
   if (ar.reduced) { dims = {2, 3}; flagsets = {0, 7}; }
   long long shapes = 0, caseno = 0;
@@ -237,7 +240,7 @@ int main(int argc, char** argv) {
         bool v_is_operand = alias == P_V_IS_A || alias == P_V_IS_B || alias == P_ALL_ONE;
         if (v_is_operand && !(target == T_OWN_SAME || target == T_EXT_SAME)) continue;
         if ((alias == P_V_SHARES_A || alias == P_V_SHARES_B) && target != T_EXT_SAME) continue;
-        for (int d : dims) for (int ideal = 0; ideal < 2; ideal++) for (int ps = 0; ps < 2; ps++) {
+        for (int d : dims) for (int ideal = 0; ideal < 2; ideal++) for (int ps = 0; ps < 4; ps++) {
           bool uses_ext = target == T_EXT_SAME || target == T_EXT_OTHER;
           if (!uses_ext && ideal == 0) continue;     // alignment of external buffers is only an axis when there is one
           if ((caseno++ % ar.nshards) != ar.shard) continue;
